@@ -4,7 +4,7 @@ set -u
 cd /verif
 ID="$1"; SECS="${2:-60}"
 case "$ID" in
-  C10) TARGETS="decode";; C11) TARGETS="codec";; C18) TARGETS="window";; C01) TARGETS="send";; C02) TARGETS="recv";;
+  C10) TARGETS="decode";; C11) TARGETS="codec";; C18) TARGETS="window";; C01) TARGETS="send";; C02) TARGETS="recv";; C04) TARGETS="loss";; C07) TARGETS="term";; C08) TARGETS="flow";;
   *) exit 0;;
 esac
 export CARGO_NET_OFFLINE=true
